@@ -210,8 +210,12 @@ def execute_sync(seed, sc, script, chooser):
             out = loop.Outcome(("handshake", "client" if w == "c"
                                 else "server"))
             try:
-                g = (pair.client_gen() if w == "c" else pair.server_gen())()
-                blocking(g)
+                # the blocking entry points (handshakeClient*(async_=False),
+                # handshakeServer) are wrappers of their own
+                g = (pair.client_gen(blocking=True) if w == "c"
+                     else pair.server_gen(blocking=True))()
+                if g is not None and hasattr(g, "__next__"):
+                    blocking(g)
                 out.kind = "ok"
             except Exception as e:        # noqa
                 out.kind = "exc"
